@@ -366,6 +366,17 @@ def no_keep_old_latest_only(ctx):
                               'without keep-old the secrets paired with a right (line %d) %s: the refreshed key keeps secrets that were '
                               'rotated out' % (st['ln'], 'derive from the user key\'s own chain' if own else 'do not come from get_latest'),
                               'value <- msk.secrets.get_latest(right)', body.where(st['ln']))
+    # the same pairs built by handing right and secret to the container (`v.create_chain_with_single_value(right, secret)`)
+    for body in lib.family_ext(F, rb.key):
+        for c in body.calls(r'RevisionVec::<K, T>::create_chain_with_single_value$'):
+            if len(c.args) < 3:
+                continue
+            n += 1
+            srcs = copy_chain_sources(body, c.args[2], through_calls=(r'^std::clone::Clone::clone$', r'^std::ops::Try::branch$') + tuple(IDENTITY_CALLS))
+            latest = bool(srcs) and all(s[0] == 'call' and s[1].is_(r'RevisionMap::<K, V>::get_latest$') for s in srcs)
+            ctx.check(latest, rb.key, 'secret <- get_latest only',
+                      'without keep-old the secret paired with a right (line %d) is not the one get_latest returns for it: the refreshed key '
+                      'keeps secrets that were rotated out' % c.ln, 'value <- msk.secrets.get_latest(right)', body.where(c.ln))
     ctx.floor(n, 1, 'pairs built by the no-keep-old branch of refresh')
 
 
